@@ -269,6 +269,9 @@ func errClosedMeansClosed(p *Prog, r *Report, rule string) {
 		// the state must be the object's own (a field of the receiver, or of the pipe
 		// object this very call created), not that of a peer object it met
 		own := strings.TrimPrefix(a, "!")
+		if strings.HasPrefix(own, "arm(<-recv.") && !strings.HasPrefix(a, "!") {
+			own = "<-" + strings.TrimSuffix(strings.TrimPrefix(own, "arm(<-"), ")") // the poll of its own close channel fired
+		}
 		if !strings.HasPrefix(own, "recv.") && !strings.HasPrefix(own, "$complit.") && !strings.HasPrefix(own, "<-recv.") {
 			return false
 		}
